@@ -61,6 +61,13 @@ deriving Repr, DecidableEq, Inhabited
 def Blk.str (b : Blk) : String := s!"{b.base}:{b.size}"
 def blksStr (l : List Blk) : String := "[" ++ ",".intercalate (l.map Blk.str) ++ "]"
 
+/-- canonical text of an address/index list: short lists in full, long ones as a digest (same as the harness) -/
+def natListStr (l : List Nat) : String :=
+  if l.length > 40 then
+    let h : UInt64 := l.foldl (fun h x => h * 1000003 + x.toUInt64 + 1) 7
+    s!"[#{l.length} first={l.headD 0} last={l.getLastD 0} h={h}]"
+  else toString l
+
 def two64 : Nat := 2 ^ 64
 
 /-- `size_t` subtraction -/
